@@ -370,6 +370,15 @@ def main(argv):
             for k, v in st["log"].items():
                 print("----", k); print(v)
         return 0 if ok else 1
+    if cmd == "coqchk":
+        # independent re-check of every compiled property file and all it depends on
+        st = vlib.build()
+        mods = sorted("EF.Properties." + f[:-2] for f in os.listdir(os.path.join(vlib.COQ, "Properties")) if f.endswith(".v"))
+        p = vlib.sh("timeout 7000 coqchk -silent -o -Q . EF " + " ".join(mods) + " 2>&1", cwd=vlib.COQ, timeout=7200)
+        os.makedirs(os.path.join(vlib.ROOT, "notes"), exist_ok=True)
+        open(os.path.join(vlib.ROOT, "notes", "coqchk.txt"), "w").write("$ coqchk -silent -o -Q . EF %s\nexit status %d\n\n%s" % (" ".join(mods), p.returncode, p.stdout))
+        print(p.stdout[-3000:])
+        return 0 if p.returncode == 0 else 1
     if cmd == "replay":
         obj = json.load(open(argv[2]))
         mod = importlib.import_module("props." + obj["property"].lower())
